@@ -225,7 +225,11 @@ func (q *QueryRangeController) Tail(w http.ResponseWriter, r *http.Request) {
 				logger.Error(err)
 				return
 			}
-		case str := <-watcher.GetRes():
+		case str, ok := <-watcher.GetRes():
+			if !ok {
+				// the tail goroutine has ended (the database failed): a closed channel is always ready to receive from
+				return
+			}
 			err = con.WriteMessage(ws.TextMessage, []byte(str.Str))
 			if err != nil {
 				logger.Error(err)
